@@ -805,7 +805,7 @@ theorem foreach_e3 {sc : Scope} (hs : ScOk sc) (hg : GoodBuf sc buf) (v : Bytes)
   subst he3
   have uL : IsUse b!"List" := Or.inr (Or.inl rfl)
   have uN : IsUse b!"Limit" := Or.inr (Or.inr (Or.inl rfl))
-  have uI : IsUse b!"Index" := Or.inr (Or.inr (Or.inr rfl))
+  have uI : IsUse b!"Index" := Or.inr (Or.inr (Or.inr (Or.inl rfl)))
   have nb : ∀ u, IsUse u → Scope.jsname v u (sc.n + 1) ≠ buf :=
     fun u hu e => hg.1 v u (sc.n + 1) hv hu (Nat.lt_succ_self _) e.symm
   have ne_xn_xl : xl ≠ xn := by
@@ -847,7 +847,7 @@ theorem loop_ne {sc : Scope} (hs : ScOk sc) (hg : GoodBuf sc buf) (v : Bytes) (h
       ∀ t, Spec.Eval.loopSpec (refBlock F ae body) env v last rest i ≠ .val t := by
   have uL : IsUse b!"List" := Or.inr (Or.inl rfl)
   have uN : IsUse b!"Limit" := Or.inr (Or.inr (Or.inl rfl))
-  have uI : IsUse b!"Index" := Or.inr (Or.inr (Or.inr rfl))
+  have uI : IsUse b!"Index" := Or.inr (Or.inr (Or.inr (Or.inl rfl)))
   have u0 : IsUse [] := Or.inl rfl
   have ne_lv_xl : xl ≠ lv := by
     rw [hxl, hlv]; intro e; have := (jsname_inj_all hv hv uL u0 e).2.1; simp at this
@@ -988,9 +988,9 @@ theorem loop_ne {sc : Scope} (hs : ScOk sc) (hg : GoodBuf sc buf) (v : Bytes) (h
 
 /-! ### for … in range(…) -/
 
-/-- a loop that completes or throws has compared two numbers -/
-theorem loop_first' {body : JEnv → SRes} {i lim : Bytes} {incr : JsExpr} {k : Nat} {e : JEnv} {vi vl : JVal}
-    (hx : execLoopStep body i lim incr k e = .error) (h1 : e.locals.find? (·.1 == i) = some (i, vi))
+/-- a loop that throws has compared two numbers -/
+theorem loop_first' {body : JEnv → SRes} {i lim step idx : Bytes} {k : Nat} {e : JEnv} {vi vl : JVal}
+    (hx : execLoopStep body i lim step idx k e = .error) (h1 : e.locals.find? (·.1 == i) = some (i, vi))
     (h2 : e.locals.find? (·.1 == lim) = some (lim, vl)) : ∃ a l, vi = .num a ∧ vl = .num l := by
   cases k with
   | zero => simp [execLoopStep] at hx
@@ -1008,25 +1008,38 @@ theorem range_loop_ne {sc : Scope} (hs : ScOk sc) (hg : GoodBuf sc buf) (v : Byt
     (rb : JsStmts × Scope) (hrb : toBody ae buf body (sc.pushForRange v).2 = some rb) (ihb : BodyOk F ae buf body)
     (ihn : BodyNe F ae buf body)
     (env : SEnv) (l s : Int) (hspos : 0 < s) (fuel last : Nat)
-    (lv xn : Bytes) (hlv : lv = Scope.jsname v [] (sc.n + 1)) (hxn : xn = Scope.jsname v b!"Limit" (sc.n + 1)) :
+    (lv xn xs xi : Bytes) (hlv : lv = Scope.jsname v [] (sc.n + 1)) (hxn : xn = Scope.jsname v b!"Limit" (sc.n + 1))
+    (hxs : xs = Scope.jsname v b!"Step" (sc.n + 1)) (hxi : xi = Scope.jsname v b!"Index" (sc.n + 1)) :
     ∀ (k : Nat) (a : Int) (idx : Nat) (e : JEnv) (out : Bytes),
       exact a = true → EnvRel sc env e → BufIs buf e out →
       e.locals.find? (·.1 == xn) = some (xn, .num l) →
+      e.locals.find? (·.1 == xs) = some (xs, .num s) →
+      e.locals.find? (·.1 == xi) = some (xi, .num idx) →
       e.locals.find? (·.1 == lv) = some (lv, .num a) →
-      execLoopStep (execStmts F fuel rb.1) lv xn (.num s) k e = .error →
+      execLoopStep (execStmts F fuel rb.1) lv xn xs xi k e = .error →
       ∀ t, Spec.Eval.loopSpec (refBlock F ae body) env v last (rangeItems a l s) idx ≠ .val t := by
   have uN : IsUse b!"Limit" := Or.inr (Or.inr (Or.inl rfl))
+  have uS : IsUse b!"Step" := Or.inr (Or.inr (Or.inr (Or.inr rfl)))
+  have uI : IsUse b!"Index" := Or.inr (Or.inr (Or.inr (Or.inl rfl)))
   have u0 : IsUse [] := Or.inl rfl
   have ne_lv_xn : xn ≠ lv := by
     rw [hxn, hlv]; intro e; have := (jsname_inj_all hv hv uN u0 e).2.1; simp at this
+  have ne_lv_xs : xs ≠ lv := by
+    rw [hxs, hlv]; intro e; have := (jsname_inj_all hv hv uS u0 e).2.1; simp at this
+  have ne_lv_xi : xi ≠ lv := by
+    rw [hxi, hlv]; intro e; have := (jsname_inj_all hv hv uI u0 e).2.1; simp at this
+  have ne_xi_xn : xn ≠ xi := by
+    rw [hxn, hxi]; intro e; have := (jsname_inj_all hv hv uN uI e).2.1; simp at this
+  have ne_xi_xs : xs ≠ xi := by
+    rw [hxs, hxi]; intro e; have := (jsname_inj_all hv hv uS uI e).2.1; simp at this
   have nb : ∀ u, IsUse u → Scope.jsname v u (sc.n + 1) ≠ buf :=
     fun u hu e => hg.1 v u (sc.n + 1) hv hu (Nat.lt_succ_self _) e.symm
   obtain ⟨hs1, _, hn1⟩ := scOk_pushForRange hs v hv
   intro k
   induction k with
-  | zero => intro a idx e out _ _ _ _ _ hx; simp [execLoopStep] at hx
+  | zero => intro a idx e out _ _ _ _ _ _ _ hx; simp [execLoopStep] at hx
   | succ k ih =>
-    intro a idx e out hexa hrel hb h2 h3 hx
+    intro a idx e out hexa hrel hb h2 hst hix h3 hx
     unfold execLoopStep at hx
     rcases withVal_error hx with hc | ⟨c, hc, hx⟩
     · rw [cond_lt h3 h2] at hc; cases hc
@@ -1045,43 +1058,61 @@ theorem range_loop_ne {sc : Scope} (hs : ScOk sc) (hg : GoodBuf sc buf) (v : Byt
       · exact out_bind_not_val (ihn fuel _ rb _ _ out hrb hs1 (goodBuf_pushForRange hg v hv) hrel_a hb hbody)
       · obtain ⟨ti, hti, hb_b, hk_b⟩ := ihb fuel _ rb _ _ eb out hrb hs1 (goodBuf_pushForRange hg v hv) hrel_a hb hbody
         rw [hn1] at hk_b
-        have oI : Old (sc.n + 1) lv := by rw [hlv]; exact old_jsname hv u0 (Nat.le_refl _)
+        have oV : Old (sc.n + 1) lv := by rw [hlv]; exact old_jsname hv u0 (Nat.le_refl _)
         have oN : Old (sc.n + 1) xn := by rw [hxn]; exact old_jsname hv uN (Nat.le_refl _)
+        have oS : Old (sc.n + 1) xs := by rw [hxs]; exact old_jsname hv uS (Nat.le_refl _)
+        have oI : Old (sc.n + 1) xi := by rw [hxi]; exact old_jsname hv uI (Nat.le_refl _)
         have h3b : eb.locals.find? (·.1 == lv) = some (lv, .num a) := by
-          rw [hk_b.2.2 lv (by rw [hlv]; exact nb _ (Or.inl rfl)) oI]; exact h3
+          rw [hk_b.2.2 lv (by rw [hlv]; exact nb _ u0) oV]; exact h3
         have h2b : eb.locals.find? (·.1 == xn) = some (xn, .num l) := by
           rw [hk_b.2.2 xn (by rw [hxn]; exact nb _ uN) oN]; exact h2
-        rw [eval_local h3b] at hx
+        have hsb : eb.locals.find? (·.1 == xs) = some (xs, .num s) := by
+          rw [hk_b.2.2 xs (by rw [hxs]; exact nb _ uS) oS]; exact hst
+        have hib : eb.locals.find? (·.1 == xi) = some (xi, .num idx) := by
+          rw [hk_b.2.2 xi (by rw [hxi]; exact nb _ uI) oI]; exact hix
+        have hadd : eval eb (.bin .add (.local lv) (.local xs)) = numRes (a + s) := by
+          simp [eval, JOut.bind, binop, h3b, hsb]
+        rw [hadd] at hx
+        rcases withVal_error hx with hx | ⟨r, hr, hx⟩
+        · exact absurd hx (numRes_ne_error _)
+        obtain ⟨hexa', rfl⟩ := C04c.numRes_val hr
+        have hib2 : (setLocal eb lv (.num (a + s))).locals.find? (·.1 == xi) = some (xi, .num idx) := by
+          rw [find_setLocal_ne eb lv xi _ ne_lv_xi]; exact hib
+        rw [eval_local hib2] at hx
         rcases withVal_error hx with hx | ⟨v0, hv0, hx⟩
         · cases hx
         simp only [JOut.val.injEq] at hv0
         subst hv0
-        rcases withVal_error hx with hx | ⟨d, hd, hx⟩
-        · unfold eval at hx; split at hx <;> cases hx
-        have hd' : d = .num s := by
-          unfold eval at hd
-          split at hd
-          · simp only [JOut.val.injEq] at hd; exact hd.symm
-          · cases hd
-        subst hd'
-        rcases withVal_error hx with hx | ⟨r, hr, hx⟩
-        · exact absurd hx (binop_ne_error _ _ _)
-        simp only [binop] at hr
-        obtain ⟨hexa', rfl⟩ := C04c.numRes_val hr
+        rcases withVal_error hx with hx | ⟨r2, hr2, hx⟩
+        · simp only [incr] at hx; exact absurd hx (numRes_ne_error _)
+        simp only [incr] at hr2
+        obtain ⟨_, rfl⟩ := C04c.numRes_val hr2
+        have hcast : ((idx : Int) + 1) = ((idx + 1 : Nat) : Int) := by omega
+        rw [hcast] at hx
         have hk_c : Keeps buf sc.n eb (setLocal eb lv (.num (a + s))) := by
           rw [hlv]; exact keeps_setNew buf sc.n eb hv u0 (Nat.lt_succ_self _) _
-        have hk_ec : Keeps buf sc.n e (setLocal eb lv (.num (a + s))) :=
-          ((hk_b.mono (Nat.le_succ _))).trans hk_c (Nat.le_refl _)
+        have hk_d : Keeps buf sc.n (setLocal eb lv (.num (a + s)))
+            (setLocal (setLocal eb lv (.num (a + s))) xi (.num ((idx + 1 : Nat) : Int))) := by
+          rw [hxi]; exact keeps_setNew buf sc.n _ hv uI (Nat.lt_succ_self _) _
+        have hk_ec := ((hk_b.mono (Nat.le_succ _)).trans hk_c (Nat.le_refl _)).trans hk_d (Nat.le_refl _)
         have hrel_c := envRel_keep (sc' := sc) hrel hk_ec hs.2 (Nat.le_refl _) hg.2 rfl
-        have hb_c : BufIs buf (setLocal eb lv (.num (a + s))) (out ++ ti) := by
+        have hb_c : BufIs buf (setLocal (setLocal eb lv (.num (a + s))) xi (.num ((idx + 1 : Nat) : Int))) (out ++ ti) := by
           unfold BufIs
-          rw [find_setLocal_ne eb lv buf _ (by rw [hlv]; exact (nb _ (Or.inl rfl)).symm)]
+          rw [find_setLocal_ne _ xi buf _ (by rw [hxi]; exact (nb _ uI).symm),
+            find_setLocal_ne eb lv buf _ (by rw [hlv]; exact (nb _ u0).symm)]
           exact hb_b
-        have h2c : (setLocal eb lv (.num (a + s))).locals.find? (·.1 == xn) = some (xn, .num l) := by
-          rw [find_setLocal_ne eb lv xn _ ne_lv_xn]; exact h2b
+        have h2c : (setLocal (setLocal eb lv (.num (a + s))) xi (.num ((idx + 1 : Nat) : Int))).locals.find? (·.1 == xn) =
+            some (xn, .num l) := by
+          rw [find_setLocal_ne _ xi xn _ ne_xi_xn, find_setLocal_ne eb lv xn _ ne_lv_xn]; exact h2b
+        have hsc : (setLocal (setLocal eb lv (.num (a + s))) xi (.num ((idx + 1 : Nat) : Int))).locals.find? (·.1 == xs) =
+            some (xs, .num s) := by
+          rw [find_setLocal_ne _ xi xs _ ne_xi_xs, find_setLocal_ne eb lv xs _ ne_lv_xs]; exact hsb
+        have h3c : (setLocal (setLocal eb lv (.num (a + s))) xi (.num ((idx + 1 : Nat) : Int))).locals.find? (·.1 == lv) =
+            some (lv, .num (a + s)) := by
+          rw [find_setLocal_ne _ xi lv _ ne_lv_xi.symm]; exact find_setLocal_eq _ _ _
         rw [hti]
         simp only [Spec.Eval.Out.bind]
-        exact out_bind_not_val (ih (a + s) (idx + 1) _ (out ++ ti) hexa' hrel_c hb_c h2c (find_setLocal_eq _ _ _) hx)
+        exact out_bind_not_val (ih (a + s) (idx + 1) _ (out ++ ti) hexa' hrel_c hb_c h2c hsc (find_setLocal_eq _ _ _) h3c hx)
     · have : decide (a < l) = false := by simpa using hlt
       simp only [this, toBoolean, Bool.false_eq_true, if_false] at hx
       cases hx
@@ -1130,14 +1161,19 @@ theorem range_ne (p : Nat) (v : Bytes) (list : Expr) (body : Block) (ihb : BodyO
   obtain ⟨hv, _, args, l, c, jl, ji, rbv, pc, hr, hl, hinc, hpos, hjl, hji, hrb, rfl⟩ := rangeJoin_some h
   obtain ⟨pf, rfl⟩ := isRangeCall_some hr
   have uN : IsUse b!"Limit" := Or.inr (Or.inr (Or.inl rfl))
+  have uS : IsUse b!"Step" := Or.inr (Or.inr (Or.inr (Or.inr rfl)))
+  have uI : IsUse b!"Index" := Or.inr (Or.inr (Or.inr (Or.inl rfl)))
   have u0 : IsUse [] := Or.inl rfl
   have nb : ∀ u, IsUse u → Scope.jsname v u (sc.n + 1) ≠ buf :=
     fun u hu e => hg.1 v u (sc.n + 1) hv hu (Nat.lt_succ_self _) e.symm
-  have ne_lv_xn : (sc.pushForRange v).1.2 ≠ (sc.pushForRange v).1.1 := by
-    intro e
-    have := (jsname_inj_all hv hv uN u0 e).2.1
-    simp at this
-  have hloop : Spec.Eval.isLoopFn b!"range" = false := rfl
+  have hd : ∀ {u u' : Bytes}, IsUse u → IsUse u' → u ≠ u' → Scope.jsname v u (sc.n + 1) ≠ Scope.jsname v u' (sc.n + 1) :=
+    fun hu hu' hne e => hne (jsname_inj_all hv hv hu hu' e).2.1
+  have hNS : Scope.jsname v b!"Limit" (sc.n + 1) ≠ Scope.jsname v b!"Step" (sc.n + 1) := hd uN uS (by decide)
+  have hNV : Scope.jsname v b!"Limit" (sc.n + 1) ≠ Scope.jsname v [] (sc.n + 1) := hd uN u0 (by decide)
+  have hNI : Scope.jsname v b!"Limit" (sc.n + 1) ≠ Scope.jsname v b!"Index" (sc.n + 1) := hd uN uI (by decide)
+  have hSV : Scope.jsname v b!"Step" (sc.n + 1) ≠ Scope.jsname v [] (sc.n + 1) := hd uS u0 (by decide)
+  have hSI : Scope.jsname v b!"Step" (sc.n + 1) ≠ Scope.jsname v b!"Index" (sc.n + 1) := hd uS uI (by decide)
+  have hVI : Scope.jsname v [] (sc.n + 1) ≠ Scope.jsname v b!"Index" (sc.n + 1) := hd u0 uI (by decide)
   simp only [rangeStmts, JsStmts.one, execStmts] at hx
   simp only [refCmd]
   have harg := range_args_val env pf args l hl
@@ -1153,36 +1189,70 @@ theorem range_ne (p : Nat) (v : Bytes) (list : Expr) (body : Block) (ihb : BodyO
   simp only [SRes.ok.injEq] at h1
   subst h1
   obtain ⟨vlim, hvlim, hlimj⟩ := C04c.gen_correct_refs_partial sc env jenv hrel l jl jlim hjl hjlim
-  have k1 : Keeps buf sc.n jenv (setLocal jenv (sc.pushForRange v).1.2 jlim) :=
-    keeps_setNew buf sc.n jenv hv uN (Nat.lt_succ_self _) _
-  have hrel1 := envRel_keep (sc' := sc) hrel k1 hs.2 (Nat.le_refl _) hg.2 rfl
-  rcases sres_bind_error hx with h2 | ⟨e2, _, hx⟩
-  case inr => cases hx
+  rcases sres_bind_error hx with h2 | ⟨e2, h2, hx⟩
+  · simp only [execStmt] at h2
+    rcases withVal_error h2 with h2 | ⟨_, _, h2⟩
+    · unfold eval at h2; split at h2 <;> cases h2
+    · cases h2
   simp only [execStmt] at h2
-  rcases withVal_error h2 with h2 | ⟨jinit, hjinit, h2⟩
-  · exact out_bind_not_val (fun w hw => by
-      obtain ⟨w2, hw2⟩ := (harg w hw).2
-      exact expr_no_throw sc env _ hrel1 _ ji hji h2 w2 hw2)
-  obtain ⟨vinit, hvinit, hinitj⟩ := C04c.gen_correct_refs_partial sc env _ hrel1 _ ji jinit hji hjinit
-  have k2 : Keeps buf sc.n (setLocal jenv (sc.pushForRange v).1.2 jlim)
-      (setLocal (setLocal jenv (sc.pushForRange v).1.2 jlim) (sc.pushForRange v).1.1 jinit) :=
-    keeps_setNew buf sc.n _ hv u0 (Nat.lt_succ_self _) _
+  obtain ⟨jstep, hjstep, h2⟩ := withVal_ok h2
+  simp only [SRes.ok.injEq] at h2
+  subst h2
+  have hstepv : jstep = .num c := by
+    unfold eval at hjstep
+    split at hjstep
+    · simp only [JOut.val.injEq] at hjstep; exact hjstep.symm
+    · cases hjstep
+  subst hstepv
+  have k1 : Keeps buf sc.n jenv (setLocal jenv (Scope.jsname v b!"Limit" (sc.n + 1)) jlim) :=
+    keeps_setNew buf sc.n jenv hv uN (Nat.lt_succ_self _) _
+  have k2 : Keeps buf sc.n _ (setLocal (setLocal jenv (Scope.jsname v b!"Limit" (sc.n + 1)) jlim)
+      (Scope.jsname v b!"Step" (sc.n + 1)) (.num c)) := keeps_setNew buf sc.n _ hv uS (Nat.lt_succ_self _) _
   have k12 := k1.trans k2 (Nat.le_refl _)
   have hrel2 := envRel_keep (sc' := sc) hrel k12 hs.2 (Nat.le_refl _) hg.2 rfl
-  have hfl : (setLocal (setLocal jenv (sc.pushForRange v).1.2 jlim) (sc.pushForRange v).1.1 jinit).locals.find?
-      (·.1 == (sc.pushForRange v).1.2) = some ((sc.pushForRange v).1.2, jlim) := by
-    rw [find_setLocal_ne _ _ _ _ ne_lv_xn]; exact find_setLocal_eq _ _ _
-  obtain ⟨a, lim, rfl, rfl⟩ := loop_first' h2 (find_setLocal_eq _ _ _) hfl
+  rcases sres_bind_error hx with h3 | ⟨e3, _, hx⟩
+  case inr => cases hx
+  simp only [execStmt] at h3
+  rcases withVal_error h3 with h3 | ⟨jinit, hjinit, h3⟩
+  · exact out_bind_not_val (fun w hw => by
+      obtain ⟨w2, hw2⟩ := (harg w hw).2
+      exact expr_no_throw sc env _ hrel2 _ ji hji h3 w2 hw2)
+  obtain ⟨vinit, hvinit, hinitj⟩ := C04c.gen_correct_refs_partial sc env _ hrel2 _ ji jinit hji hjinit
+  have k3 : Keeps buf sc.n _ (setLocal (setLocal (setLocal jenv (Scope.jsname v b!"Limit" (sc.n + 1)) jlim)
+      (Scope.jsname v b!"Step" (sc.n + 1)) (.num c)) (Scope.jsname v [] (sc.n + 1)) jinit) :=
+    keeps_setNew buf sc.n _ hv u0 (Nat.lt_succ_self _) _
+  have k4 : Keeps buf sc.n _ (setLocal (setLocal (setLocal (setLocal jenv (Scope.jsname v b!"Limit" (sc.n + 1)) jlim)
+      (Scope.jsname v b!"Step" (sc.n + 1)) (.num c)) (Scope.jsname v [] (sc.n + 1)) jinit)
+      (Scope.jsname v b!"Index" (sc.n + 1)) (.num 0)) := keeps_setNew buf sc.n _ hv uI (Nat.lt_succ_self _) _
+  have k1234 := (k12.trans k3 (Nat.le_refl _)).trans k4 (Nat.le_refl _)
+  have hrel4 := envRel_keep (sc' := sc) hrel k1234 hs.2 (Nat.le_refl _) hg.2 rfl
+  have fN : (setLocal (setLocal (setLocal (setLocal jenv (Scope.jsname v b!"Limit" (sc.n + 1)) jlim)
+      (Scope.jsname v b!"Step" (sc.n + 1)) (.num c)) (Scope.jsname v [] (sc.n + 1)) jinit)
+      (Scope.jsname v b!"Index" (sc.n + 1)) (.num 0)).locals.find? (·.1 == Scope.jsname v b!"Limit" (sc.n + 1)) =
+      some (Scope.jsname v b!"Limit" (sc.n + 1), jlim) := by
+    rw [find_setLocal_ne _ _ _ _ hNI, find_setLocal_ne _ _ _ _ hNV, find_setLocal_ne _ _ _ _ hNS]; exact find_setLocal_eq _ _ _
+  have fS : (setLocal (setLocal (setLocal (setLocal jenv (Scope.jsname v b!"Limit" (sc.n + 1)) jlim)
+      (Scope.jsname v b!"Step" (sc.n + 1)) (.num c)) (Scope.jsname v [] (sc.n + 1)) jinit)
+      (Scope.jsname v b!"Index" (sc.n + 1)) (.num 0)).locals.find? (·.1 == Scope.jsname v b!"Step" (sc.n + 1)) =
+      some (Scope.jsname v b!"Step" (sc.n + 1), .num c) := by
+    rw [find_setLocal_ne _ _ _ _ hSI, find_setLocal_ne _ _ _ _ hSV]; exact find_setLocal_eq _ _ _
+  have fV : (setLocal (setLocal (setLocal (setLocal jenv (Scope.jsname v b!"Limit" (sc.n + 1)) jlim)
+      (Scope.jsname v b!"Step" (sc.n + 1)) (.num c)) (Scope.jsname v [] (sc.n + 1)) jinit)
+      (Scope.jsname v b!"Index" (sc.n + 1)) (.num 0)).locals.find? (·.1 == Scope.jsname v [] (sc.n + 1)) =
+      some (Scope.jsname v [] (sc.n + 1), jinit) := by
+    rw [find_setLocal_ne _ _ _ _ hVI]; exact find_setLocal_eq _ _ _
+  obtain ⟨a, lim, rfl, rfl⟩ := loop_first' h3 fV fN
   obtain ⟨rfl, hexa⟩ := C04c.toJsV_num hinitj
   obtain ⟨rfl, _⟩ := C04c.toJsV_num hlimj
-  have hb2 : BufIs buf (setLocal (setLocal jenv (sc.pushForRange v).1.2 (.num lim)) (sc.pushForRange v).1.1 (.num a)) out := by
-    have nb1 : (sc.pushForRange v).1.1 ≠ buf := nb [] u0
-    have nb2 : (sc.pushForRange v).1.2 ≠ buf := nb b!"Limit" uN
+  have hb4 : BufIs buf (setLocal (setLocal (setLocal (setLocal jenv (Scope.jsname v b!"Limit" (sc.n + 1)) (.num lim))
+      (Scope.jsname v b!"Step" (sc.n + 1)) (.num c)) (Scope.jsname v [] (sc.n + 1)) (.num a))
+      (Scope.jsname v b!"Index" (sc.n + 1)) (.num 0)) out := by
     unfold BufIs
-    rw [find_setLocal_ne _ (sc.pushForRange v).1.1 buf _ nb1.symm, find_setLocal_ne _ (sc.pushForRange v).1.2 buf _ nb2.symm]
+    rw [find_setLocal_ne _ _ buf _ (nb _ uI).symm, find_setLocal_ne _ _ buf _ (nb _ u0).symm,
+      find_setLocal_ne _ _ buf _ (nb _ uS).symm, find_setLocal_ne _ _ buf _ (nb _ uN).symm]
     exact hb
   have hne := range_loop_ne F ae buf hs hg v hv body rbv hrb ihb ihn env lim c hpos fuel
-    ((rangeItems a lim c).length - 1) _ _ rfl rfl fuel a 0 _ out hexa hrel2 hb2 hfl (find_setLocal_eq _ _ _) h2
+    ((rangeItems a lim c).length - 1) _ _ _ _ rfl rfl rfl rfl fuel a 0 _ out hexa hrel4 hb4 fN fS (find_setLocal_eq _ _ _) fV h3
   have hev : Spec.Eval.eval env (.func pf b!"range" args) = .val (.list (rangeItems a lim c)) := by
     rw [range_eval env pf args l a lim c hl hvinit hvlim (by rw [hinc]; simp [Spec.Eval.eval]), rangeSpec_val a lim c hpos]
   rw [hev]
